@@ -60,6 +60,7 @@ type inst struct {
 	fs      *faultStore
 	conns   map[int]*vconn
 	dead    bool // a command timed out (deadlock): the instance is unusable
+	feed    *feedState
 }
 
 func newInst(backend string) *inst {
@@ -374,6 +375,8 @@ func (in *inst) xop(op string, arg string) (t0, t1 int64, res string) {
 			for _, c := range arg {
 				in.fs.faults = append(in.fs.faults, c == '1')
 			}
+		case "FEED":
+			in.attachFeed(arg)
 		case "PROBE":
 			// force every index entry to be loaded (Type goes through readKey)
 			for _, m := range in.n.VerifDump() {
